@@ -497,6 +497,8 @@ def run_actions(actions, phase, ctx):
                     set_(saved if a.get('how') == 'saved' else None)
             emit('hooks.used', ctx=ctx, which=a.get('which'),
                  how=a.get('how'))
+        elif do == 'nested_run':
+            nested_run(a, ctx)
         elif do == 'probe_state':
             emit('probe.state', where=phase, ctx=ctx, **probe_state())
         elif do == 'raise_base':
@@ -504,6 +506,93 @@ def run_actions(actions, phase, ctx):
             if a.get('exc') == 'KeyboardInterrupt':
                 raise KeyboardInterrupt()
             raise SystemExit(a.get('code', 5))
+
+
+_NESTED = [0]
+
+NESTED_MODULE = """import unittest
+
+
+class TestInner(unittest.TestCase):
+
+    def test_a(self):
+        self.assertEqual(1, 1)
+
+    def test_b(self):
+        pass
+
+    def test_c(self):
+        self.assertTrue(%(ok)r)
+"""
+
+
+def nested_run(a, ctx):
+    """A test that runs the test runner itself, in this process, over a
+    little tree of its own and with its output captured - what the doctests
+    of the runner, of runner plug-ins and of "test my test helpers" packages
+    do.  The interpreter-global state is compared around the inner run."""
+    import io
+    import shutil
+    import tempfile
+    _NESTED[0] += 1
+    base = os.path.dirname(os.path.dirname(
+        os.environ.get('ZTR_WORLD') or '')) or None
+    d = tempfile.mkdtemp(prefix='nested-', dir=base)
+    name = 'zin%d_%d' % (os.getpid(), _NESTED[0])
+    with open(os.path.join(d, name + '.py'), 'w') as f:
+        f.write(NESTED_MODULE % {'ok': not a.get('fail')})
+    argv = ['--path', d, '--tests-pattern', '^%s$' % name] + \
+        list(a.get('argv') or [])
+    import zope.testrunner
+    before = probe_state_full()
+    out = io.StringIO()
+    saved = sys.stdout, sys.stderr
+    sys.stdout = out
+    if a.get('capture_stderr', True):
+        sys.stderr = out
+    failed = raised = None
+    try:
+        try:
+            failed = zope.testrunner.run_internal(argv, ['inner'])
+        except BaseException as e:     # noqa: reported, not swallowed
+            raised = repr(e)
+    finally:
+        sys.stdout, sys.stderr = saved
+        sys.modules.pop(name, None)
+        shutil.rmtree(d, ignore_errors=True)
+    after = probe_state_full()
+    diff = sorted(k for k in before if before[k] != after.get(k))
+    text = out.getvalue()
+    emit('nested.run', ctx=ctx, argv=argv[4:], failed=failed, raised=raised,
+         want_failed=bool(a.get('fail')), state_diff=diff,
+         diff_detail={k: [str(before[k])[:120], str(after.get(k))[:120]]
+                      for k in diff},
+         ran_line=[ln.strip() for ln in text.splitlines()
+                   if ln.strip().startswith('Ran ')][:2])
+
+
+def probe_state_full():
+    """The state C18 names, by value / identity (compared inside one
+    process only)."""
+    import gc
+    import traceback
+    import warnings
+    s = {
+        'gc_threshold': gc.get_threshold(),
+        'gc_debug': gc.get_debug(),
+        'tb_format': id(traceback.format_exception),
+        'tb_print': id(traceback.print_exception),
+        'trace': repr(sys.gettrace()),
+        'profile': repr(sys.getprofile()),
+        'filters': [repr(f) for f in warnings.filters],
+        'showwarning': id(warnings.showwarning),
+        'stdout': id(sys.stdout),
+        'stderr': id(sys.stderr),
+    }
+    if hasattr(threading, 'gettrace'):
+        s['threading_trace'] = repr(threading.gettrace())
+        s['threading_profile'] = repr(threading.getprofile())
+    return s
 
 
 def probe_state():
